@@ -194,10 +194,10 @@ pub fn judge_mount(rep: &mut Report, args: &Args, base: &str, what: &str, img: &
 pub fn bases() -> Vec<(String, Image)> {
     let mut v = Vec::new();
     for (name, cfg) in [
-        ("fat12", VolCfg { fat: 12, bps: 512, spc: 1, nfats: 2, root_entries: 32, clusters: 300, extra: 0, garbage: false, slack: 0 }),
-        ("fat16", VolCfg { fat: 16, bps: 512, spc: 2, nfats: 2, root_entries: 512, clusters: 5000, extra: 0, garbage: false, slack: 0 }),
-        ("fat32", VolCfg { fat: 32, bps: 512, spc: 1, nfats: 2, root_entries: 0, clusters: 66000, extra: 0, garbage: false, slack: 0 }),
-        ("fat16-4k", VolCfg { fat: 16, bps: 4096, spc: 8, nfats: 1, root_entries: 128, clusters: 4200, extra: 0, garbage: false, slack: 0 }),
+        ("fat12", VolCfg { fat: 12, bps: 512, spc: 1, nfats: 2, root_entries: 32, clusters: 300, extra: 0, garbage: false, slack: 0, used_device: false }),
+        ("fat16", VolCfg { fat: 16, bps: 512, spc: 2, nfats: 2, root_entries: 512, clusters: 5000, extra: 0, garbage: false, slack: 0, used_device: false }),
+        ("fat32", VolCfg { fat: 32, bps: 512, spc: 1, nfats: 2, root_entries: 0, clusters: 66000, extra: 0, garbage: false, slack: 0, used_device: false }),
+        ("fat16-4k", VolCfg { fat: 16, bps: 4096, spc: 8, nfats: 1, root_entries: 128, clusters: 4200, extra: 0, garbage: false, slack: 0, used_device: false }),
     ] {
         if let Ok((img, _)) = make_volume(&cfg) {
             v.push((name.to_string(), img));
